@@ -728,6 +728,64 @@ def fam_intra(cfg, rng):
     return h
 
 
+def fam_eq_stable(cfg, rng):
+    """C04: the equality observed between two handles does not change while neither of them shows anything different,
+    whatever content-preserving operation (root request, rebase, self-deduplication, no-op flush, clone/drop, front
+    removal on a third handle) is applied to one of them or to a relative in between."""
+    h = H(cfg, rng, 'eq_stable')
+    kind = rng.choice(['L', 'L', 'V']) if cfg.n <= 64 else 'L'
+    n = cfg.n if kind == 'V' else rng.randint(0, h.maxlen(64))
+    vs = h.vals(n, rng.choice(['blocks', 'zero_tail', 'zeros', 'same', 'mixed', 'blocks']))
+    if kind == 'L' and vs and rng.random() < 0.4:
+        # X 0..0 X': an earlier full block, zeros, then a cut-off repetition of the block (hashes like its padded form)
+        blk = [h.val() for _ in range(rng.choice([1, 2, 4, max(1, cfg.pf or 1)]))]
+        z = [h.pool[0]] * rng.choice([len(blk), 3 * len(blk), 7 * len(blk), len(blk) * 2 - 1])
+        vs = (blk + z + blk)[:h.maxlen(64)] or vs
+    (h.new_list if kind == 'L' else h.new_vec)(0, vs)
+    if 0 not in h.regs:
+        return h
+    if rng.random() < 0.6:
+        h.hash(0)
+    h.clone(0, 1)
+    if rng.random() < 0.3 and h.regs[1]['v']:
+        h.write(1)
+        h.apply(1)
+    if rng.random() < 0.5:
+        h.fresh_like(0, 2)
+    for _ in range(rng.randint(1, 3)):
+        h.emit('eq h0 h1')
+        if 2 in h.regs:
+            h.emit('eq h2 h0')
+        c = rng.random()
+        t = rng.choice([0, 0, 1])
+        if c < 0.35:
+            h.intra(t)
+        elif c < 0.5:
+            h.hash(t)
+        elif c < 0.7:
+            h.rebase_on(t, 1 - t)
+        elif c < 0.8:
+            h.apply(t)
+        elif c < 0.9 and 2 in h.regs:
+            h.rebase_on(t, 2)
+        else:
+            h.clone(t, 3)
+            if kind == 'L':
+                h.pop_front(3)
+            h.emit('drop h3')
+            h.regs.pop(3, None)
+        h.emit('eq h0 h1')
+        h.emit('eq h1 h0')
+        if 2 in h.regs:
+            h.emit('eq h2 h0')
+    if rng.random() < 0.5:
+        h.emit('rebase h1 h0 h4')
+        h.regs[4] = dict(h.regs[1], v=list(h.regs[1]['v']))
+        h.emit('eq h4 h1')
+        h.emit('eq h4 h0')
+    return h
+
+
 def fam_suffix(cfg, rng, ln=None, i=None):
     h = H(cfg, rng, 'suffix')
     mx = h.maxlen(70)
@@ -871,6 +929,48 @@ def fam_codec(cfg, rng):
         mutate(h, 0, 4)
         h.emit('ssz_enc h0')
         h.emit('serde_ser h0')
+    return h
+
+
+def fam_roundtrip(cfg, rng):
+    """C12 / C13 round trip: an original reached by ANY path (constructor, repetition, pushes that were flushed, front
+    removal, conversion), possibly with writes still pending, is encoded; the encoding of what it shows is decoded into
+    another register (SSZ and serde); the original is flushed; the two must compare equal in both directions."""
+    h = H(cfg, rng, 'roundtrip')
+    start(h, 0)
+    if 0 not in h.regs:
+        return h
+    st = h.regs[0]
+    c = rng.random()
+    if c < 0.35 and st['k'] == 'L':
+        for _ in range(rng.randint(1, 6)):
+            h.push(0)
+        if rng.random() < 0.7:
+            h.apply(0)
+    elif c < 0.5 and st['k'] == 'L':
+        h.pop_front(0, slow=rng.random() < 0.3)
+    elif c < 0.6:
+        h.convert(0, 1)
+        if 1 in h.regs:
+            h.regs[0] = h.regs.pop(1)
+            h.emit('clone h1 h0')
+            h.emit('drop h1')
+    elif c < 0.8:
+        mutate(h, 0, rng.randint(1, 4))
+    st = h.regs.get(0)
+    if not st or len(st['v']) > 200:
+        return h
+    h.emit('ssz_enc h0')
+    h.emit('serde_ser h0')
+    dec = 'list' if st['k'] == 'L' else 'vec'
+    h.emit('ssz_%s h1 %s' % (dec, serialize(cfg.kind, st['v'])))
+    h.regs[1] = dict(k=st['k'], v=list(st['v']), p=False, b=len(st['v']))
+    h.emit('serde_%s h2 %s' % (dec, vals_str(st['v'])))
+    h.regs[2] = dict(k=st['k'], v=list(st['v']), p=False, b=len(st['v']))
+    if st['p']:
+        h.apply(0)
+    for a, b in ((0, 1), (1, 0), (0, 2), (2, 0), (1, 2)):
+        h.emit('eq h%d h%d' % (a, b))
     return h
 
 
@@ -1103,6 +1203,7 @@ FAMILIES = {
     'rebase_pairs': fam_rebase_pairs, 'intra': fam_intra, 'suffix': fam_suffix,
     'capacity': fam_capacity, 'bulk': fam_bulk, 'codec': fam_codec, 'invalid_args': fam_invalid,
     'builder': fam_builder, 'builder_nodes': fam_builder_nodes, 'big': fam_big, 'deep': fam_deep, 'par': fam_par, 'cost': fam_cost, 'fault': fam_fault,
+    'eq_stable': fam_eq_stable, 'roundtrip': fam_roundtrip,
 }
 
 
